@@ -1294,9 +1294,27 @@ func (c *Census) NestingMatrix() map[string]map[string]int {
 // MissingPairs lists the (child<parent) pairs among the block-bearing / interesting constructs never generated.
 func (c *Census) MissingPairs() []string {
 	kinds := []string{"if", "ifonly", "lam", "call", "ext", "pipe", "matchu", "matchs", "bin", "tuple", "record", "ctor", "slice"}
+	// pairs no well-typed program can contain: a unit-typed if-without-else or a function-typed lambda as a
+	// direct operand / component of a data construct
+	impossible := func(ch, p string) bool {
+		data := p == "bin" || p == "tuple" || p == "record" || p == "ctor" || p == "slice"
+		if (ch == "ifonly" || ch == "lam") && data {
+			return true
+		}
+		if ch == "ifonly" && (p == "call" || p == "ext" || p == "pipe") {
+			return true
+		}
+		if ch == "lam" && p == "pipe" {
+			return true
+		}
+		return false
+	}
 	var miss []string
 	for _, p := range kinds {
 		for _, ch := range kinds {
+			if impossible(ch, p) {
+				continue
+			}
 			if c.Nesting[ch+"<"+p] == 0 {
 				miss = append(miss, ch+"<"+p)
 			}
